@@ -924,16 +924,6 @@ func layerHostile(h *harness.H) {
 		panic(err)
 	}
 	nCases := h.N(1500, 50000)
-	var all []hInput
-	for c := 0; c < nCases; c++ {
-		if h.Skip("hostile", c) {
-			continue
-		}
-		r := h.Rand("hostile", c)
-		all = append(all, genHostileCase(r, c, w)...)
-	}
-	w.Close()
-
 	bin, useLimit := os.Getenv(childBinEnv), true
 	if bin == "" {
 		// fall back to this (race-instrumented) binary; its shadow memory does not fit
@@ -948,66 +938,85 @@ func layerHostile(h *harness.H) {
 	}
 	_ = os.MkdirAll(dir, 0o755)
 
-	t0 := time.Now()
-	observed := runInputs(h, bin, useLimit, dir, "main", w, all)
-	h.SetExtra("wall_s_hostile_main_batch", time.Since(t0).Seconds())
-
+	// cases are generated, decoded and judged in chunks so that the inputs of a thorough run
+	// (about 1.5 million byte strings) never sit in memory or on disk all at once
+	const chunk = 2000
 	minimised := map[string]bool{}
-	for gi, in := range all {
-		o := observed[gi]
-		h.Eval()
-		h.Count("hostile_inputs", 1)
-		h.Count("hostile_input_bytes", len(in.Data))
-		mutClass := in.Mut
-		if i := strings.IndexByte(mutClass, '='); i > 0 {
-			mutClass = mutClass[:i]
-		}
-		h.Seen("hostile_targets", in.kind())
-		h.Seen("hostile_mutations", mutClass)
-		outcome := "none"
-		switch {
-		case o.killed:
-			outcome = "killed"
-			h.Count("child_deaths", 1)
-		case o.stalled:
-			h.Inconclusive("hostile-decode-stalled")
-			continue
-		case o.res == nil:
-			h.Inconclusive("hostile-no-result")
-			continue
-		default:
-			outcome = o.res.Outcome
-			if o.res.Alloc > allocBound(len(in.Data)) {
-				h.Count("alloc_over_bound", 1)
+	var batchWall float64
+	for start := 0; start < nCases; start += chunk {
+		var all []hInput
+		for c := start; c < nCases && c < start+chunk; c++ {
+			if h.Skip("hostile", c) {
+				continue
 			}
+			r := h.Rand("hostile", c)
+			all = append(all, genHostileCase(r, c, w)...)
 		}
-		h.Count("decode_"+outcome, 1)
-		if len(in.Data) > 0 {
-			h.Distinct(fmt.Sprint(in.kind(), mutClass, outcome))
-		}
-		if gi < 3 {
-			h.Sample(map[string]any{"layer": "hostile", "kind": in.kind(), "mut": in.Mut, "len": len(in.Data), "outcome": outcome})
-		}
-		if in.Mut == "valid" && outcome != "ok" && !strings.HasSuffix(in.kind(), "-fresh") {
-			h.Count("valid_seed_not_decoded", 1)
-		}
-		sig, what := judge(in, o)
-		if sig == "" {
+		if len(all) == 0 {
 			continue
 		}
-		wit := map[string]any{"input": in, "kind": in.kind(), "len": len(in.Data), "result": o.res, "fatal": o.line}
-		if !minimised[sig] {
-			// first witness of a signature: the shortest prefix of the input that still
-			// produces the same signature
-			minimised[sig] = true
-			if m, ok := minimisePrefix(h, bin, useLimit, dir, w, in, sig); ok {
-				wit["minimised_input"] = m
-				wit["minimised_hex"] = fmt.Sprintf("%x", m.Data)
-				what += fmt.Sprintf(" [shortest prefix with the same signature: %d bytes %x]", len(m.Data), clip(m.Data, 48))
+		t0 := time.Now()
+		observed := runInputs(h, bin, useLimit, dir, "main", w, all)
+		batchWall += time.Since(t0).Seconds()
+		firstChunk := start == 0
+		for gi, in := range all {
+			o := observed[gi]
+			h.Eval()
+			h.Count("hostile_inputs", 1)
+			h.Count("hostile_input_bytes", len(in.Data))
+			mutClass := in.Mut
+			if i := strings.IndexByte(mutClass, '='); i > 0 {
+				mutClass = mutClass[:i]
 			}
+			h.Seen("hostile_targets", in.kind())
+			h.Seen("hostile_mutations", mutClass)
+			outcome := "none"
+			switch {
+			case o.killed:
+				outcome = "killed"
+				h.Count("child_deaths", 1)
+			case o.stalled:
+				h.Inconclusive("hostile-decode-stalled")
+				continue
+			case o.res == nil:
+				h.Inconclusive("hostile-no-result")
+				continue
+			default:
+				outcome = o.res.Outcome
+				if o.res.Alloc > allocBound(len(in.Data)) {
+					h.Count("alloc_over_bound", 1)
+				}
+			}
+			h.Count("decode_"+outcome, 1)
+			if len(in.Data) > 0 {
+				h.Distinct(fmt.Sprint(in.kind(), mutClass, outcome))
+			}
+			if firstChunk && gi < 3 {
+				h.Sample(map[string]any{"layer": "hostile", "kind": in.kind(), "mut": in.Mut, "len": len(in.Data), "outcome": outcome})
+			}
+			if in.Mut == "valid" && outcome != "ok" && !strings.HasSuffix(in.kind(), "-fresh") {
+				h.Count("valid_seed_not_decoded", 1)
+			}
+			sig, what := judge(in, o)
+			if sig == "" {
+				continue
+			}
+			wit := map[string]any{"input": in, "kind": in.kind(), "len": len(in.Data), "result": o.res, "fatal": o.line}
+			if !minimised[sig] {
+				// first witness of a signature: the shortest prefix of the input that still
+				// produces the same signature
+				minimised[sig] = true
+				if m, ok := minimisePrefix(h, bin, useLimit, dir, w, in, sig); ok {
+					wit["minimised_input"] = m
+					wit["minimised_hex"] = fmt.Sprintf("%x", m.Data)
+					what += fmt.Sprintf(" [shortest prefix with the same signature: %d bytes %x]", len(m.Data), clip(m.Data, 48))
+				}
+			}
+			h.Violation("hostile", in.Case, sig, what, wit)
 		}
-		h.Violation("hostile", in.Case, sig, what, wit)
 	}
+	h.SetExtra("wall_s_hostile_main_batch", batchWall)
+	w.Close()
 }
 
 func clip(b []byte, n int) []byte {
